@@ -385,6 +385,25 @@ def eqhash_task(logic, depth, cap, seed):
     for f in sample:
         if d[f.clone()] != shapes[idx[id(f)]]:
             out['problems'].append(('dict lookup through a clone fails', str(f)))
+    # hash, then edit a strict descendant in place through the public wrap_subformulas, then compare with a freshly built equal formula
+    deep = [f for f in sample if not isinstance(f, (bool, str)) and any(len(getattr(s_, '_subformula', [])) > 0 for s_ in f.subformulas())][:60]
+    for f in deep:
+        g = f.clone()
+        h0 = hash(g)
+        inner = [s_ for s_ in g.subformulas() if len(getattr(s_, '_subformula', [])) > 0][0]
+        old_ops = list(inner.subformulas())
+        try:
+            inner.wrap_subformulas([M.AtomicProposition('zq')] + old_ops[1:], type(old_ops[0]).__mro__[-2] if False else M.Formula)
+        except TypeError:
+            continue
+        fresh = g.clone()
+        out['pairs'] += 1
+        if treeaut.shape(fresh) != treeaut.shape(g):
+            out['problems'].append(('clone after an in-place edit differs', str(g)))
+        if (g == fresh) and hash(g) != hash(fresh):
+            out['problems'].append(('equal formulas with different hashes after an in-place edit of a subformula (stale hash)', '%s / %s' % (g, fresh)))
+        if (g == fresh) and (fresh not in {g} or len({g, fresh}) != 1):
+            out['problems'].append(('equal formulas are two keys of a set after an in-place edit', '%s / %s' % (g, fresh)))
     tri = [rng_.sample(sample, 3) for _ in range(3000)]
     for a, b, c in tri:
         out['triples'] += 1
